@@ -34,6 +34,44 @@ func other() {}
 
 // --- must be discharged ---
 
+func okMake(x int) []int {
+	a := make([]int, 3)
+	a[0] = x
+	other()
+	a[2] = x
+	b := []int{x, x}
+	b[1] = a[1]
+	return append(a[:3], b[:2]...)
+}
+
+func badMake(x int) []int {
+	a := make([]int, 3)
+	a[3] = x
+	return a
+}
+
+func badMakeReassigned(x int, c []int) []int {
+	a := make([]int, 3)
+	a = c
+	a[2] = x
+	return a
+}
+
+func badMakeVar(x, n int) []int {
+	a := make([]int, n)
+	a[1] = x
+	return a
+}
+
+func badMakeBranch(x int, c bool) []int {
+	a := make([]int, 3)
+	if c {
+		a = make([]int, 1)
+	}
+	a[2] = x
+	return a
+}
+
 func okIndexAny(s string) (out []string) {
 	for {
 		i := strings.IndexAny(s, "\n\r")
@@ -232,6 +270,7 @@ func TestArith(t *testing.T) {
 		"p.(*T).find":        {"t.items[n]"},
 		"p.okHelper":         {"t.items[i]"},
 		"p.okAndAnd":         {"s[i]"},
+		"p.okMake":           {"a[0]", "a[2]", "a[1]", "b[1]", "a[:3]", "b[:2]"},
 	}
 	for fn, w := range want {
 		g := append([]string(nil), got[fn]...)
